@@ -250,7 +250,7 @@ def gen_chain(rnd, spec):
     elements = []
     for i in range(n):
         tail = i == n - 1
-        kind = rnd.choice(["pool", "composite"]) if tail else ("controller" if i == 0 and rnd.random() < 0.6 else "decorator")
+        kind = rnd.choice(["pool", "composite"]) if tail else ("controller" if (i == 0 and rnd.random() < 0.6) or rnd.random() < 0.1 else "decorator")  # controllers also below the head
         sp = gen_spec(rnd)
         if kind == "composite":
             sp["varargs"] = True
